@@ -4,18 +4,26 @@ Open Scope N_scope.
 
 (* the id inside the URL is the id filter_tag_id gives to the element (both translated from the source) *)
 Theorem url_targets_tag_id t :
-  ti_is_array t = false -> filter_url_from_type t = s_up ++ ti_root_ns t ++ s_slash_hash ++ filter_tag_id t.
+  ti_is_array t = false -> ti_has_parent t = false ->
+  filter_url_from_type t = s_up ++ ti_root_ns t ++ s_slash_hash ++ filter_tag_id t.
 Proof.
-  intros H. unfold filter_url_from_type, filter_tag_id. rewrite H. cbv zeta. cbn [concat app s_up s_slash_hash].
+  intros H Hp. unfold filter_url_from_type, filter_tag_id. rewrite H, ?Hp. cbv zeta. cbn [concat app s_up s_slash_hash].
   rewrite ?app_nil_r, <- ?app_assoc. reflexivity.
 Qed.
 
-(* ---------- refutations on concrete sites (faithful configuration) ---------- *)
-Theorem links_refuted_subns :
-  page_links_ok faithful_cfg [w_site_subns] w_site_subns = true /\ page_links_ok faithful_cfg [w_site_subns] w_sub = false.
-Proof. split; vm_compute; reflexivity. Qed.
+(* ---------- concrete sites: where links resolve, in either state of the working tree ---------- *)
+(* nested-namespace pages: without the depth prefix the links of rega/sub/index.html dangle (F-HTML-LINK-SUBNS), with it they
+   resolve; what the working tree does is lk_up faithful_cfg (regenerated from the templates) *)
+Theorem links_subns_by_state :
+  page_links_ok (set_lk_up faithful_cfg false) [w_site_subns] w_sub = false
+  /\ page_links_ok (set_lk_up faithful_cfg true) [w_site_subns] w_sub = true
+  /\ page_links_ok faithful_cfg [w_site_subns] w_site_subns = true
+  /\ page_links_ok faithful_cfg [w_site_subns] w_sub = lk_up faithful_cfg.
+Proof. repeat split; vm_compute; reflexivity. Qed.
 
-Theorem links_refuted_svc : page_links_ok faithful_cfg [w_site_svc] w_site_svc = false.
+(* service halves: the links of a service's request/response resolve iff the translated filter_url_from_type sends them to
+   the service's own anchor (F-HTML-LINK-SVC otherwise) *)
+Theorem links_svc_by_state : page_links_ok faithful_cfg [w_site_svc] w_site_svc = url_links_service.
 Proof. vm_compute. reflexivity. Qed.
 
 Theorem links_ok_witness : forallb (page_links_ok faithful_cfg w_site_ok) (site_pages w_site_ok) = true.
@@ -85,8 +93,8 @@ Lemma vals_of_elem k n at_ body : vals_of k (elem n at_ body) = attr_vals k at_ 
 Proof. unfold elem. change (POpen n at_ :: body ++ [PClose n]) with ([POpen n at_] ++ body ++ [PClose n]).
   rewrite !vals_of_app. cbn [vals_of flat_map]. rewrite !app_nil_r. reflexivity. Qed.
 
-Lemma emit_comp_id cf st c a nm :
-  In (tx (ae_ti cf) (filter_tag_id (ci_t c))) (vals_of k_id (snd (emit_ty cf st (Comp c a) nm false))).
+Lemma emit_comp_id cf up st c a nm :
+  In (tx (ae_ti cf) (filter_tag_id (ci_t c))) (vals_of k_id (snd (emit_ty cf up st (Comp c a) nm false))).
 Proof.
   cbn [emit_ty]. cbv zeta. cbn [snd]. rewrite vals_of_app. apply in_or_app. right.
   rewrite vals_of_elem. apply in_or_app. left.
@@ -98,8 +106,8 @@ Qed.
 Lemma comp_info_some t c : comp_info t = Some c -> exists a, t = Comp c a.
 Proof. destruct t; cbn; intros H; try discriminate. injection H as ->. eexists; reflexivity. Qed.
 
-Lemma emit_types_ids cf c ts : In c (listed ts) ->
-  forall st, In (tx (ae_ti cf) (filter_tag_id (ci_t c))) (vals_of k_id (snd (emit_types cf st ts))).
+Lemma emit_types_ids cf up c ts : In c (listed ts) ->
+  forall st, In (tx (ae_ti cf) (filter_tag_id (ci_t c))) (vals_of k_id (snd (emit_types cf up st ts))).
 Proof.
   induction ts as [|[sn t] r IH]; intros H st; [destruct H|].
   unfold listed in H. cbn [flat_map fst snd] in H. fold (listed r) in H. cbn [emit_types].
@@ -110,9 +118,9 @@ Proof.
   - right. apply IH. exact H.
 Qed.
 
-Lemma emit_ns_ids cf c :
-  (forall n, In c (all_listed n) -> forall st, In (tx (ae_ti cf) (filter_tag_id (ci_t c))) (vals_of k_id (snd (emit_ns cf st n))))
-  /\ (forall l, In c (all_listed_l l) -> forall st, In (tx (ae_ti cf) (filter_tag_id (ci_t c))) (vals_of k_id (snd (emit_nsl cf st l)))).
+Lemma emit_ns_ids cf up c :
+  (forall n, In c (all_listed n) -> forall st, In (tx (ae_ti cf) (filter_tag_id (ci_t c))) (vals_of k_id (snd (emit_ns cf up st n))))
+  /\ (forall l, In c (all_listed_l l) -> forall st, In (tx (ae_ti cf) (filter_tag_id (ci_t c))) (vals_of k_id (snd (emit_nsl cf up st l)))).
 Proof.
   apply nst_nsl_ind.
   - intros name docs types subs IH H st. cbn [all_listed] in H. cbn [emit_ns]. cbv zeta. cbn [snd].
@@ -129,7 +137,7 @@ Qed.
 Theorem listed_ids_on_page cf n c : In c (all_listed n) -> In (tx (ae_ti cf) (filter_tag_id (ci_t c))) (page_ids cf n).
 Proof.
   intros H. unfold page_ids, ns_page, ns_page_main. rewrite !vals_of_app. apply in_or_app. right. apply in_or_app. right.
-  rewrite vals_of_elem. apply in_or_app. right. apply (proj1 (emit_ns_ids cf c)). exact H.
+  rewrite vals_of_elem. apply in_or_app. right. apply (proj1 (emit_ns_ids cf _ c)). exact H.
 Qed.
 
 Lemma split_on_no_sep s : forall cur, forallb ident_chr s = true -> split_on 46 cur s = [rev cur ++ s].
@@ -154,12 +162,12 @@ Proof. intros H. unfold site_pages. apply in_flat_map. exists r. split; [exact H
 Theorem links_resolve_partial cf roots r c r' c' :
   ae_ti cf = false ->
   seg_ok (ns_name r) = true ->
-  ti_is_array (ci_t c) = false ->
+  ti_is_array (ci_t c) = false -> ti_has_parent (ci_t c) = false ->
   In r' roots -> ns_name r' = ti_root_ns (ci_t c) -> seg_ok (ns_name r') = true ->
   In c' (all_listed r') -> filter_tag_id (ci_t c') = filter_tag_id (ci_t c) ->
   link_ok cf roots r (filter_url_from_type (ci_t c)) = true.
 Proof.
-  intros Hae Hr Harr Hin Hname Hseg Hl Hid. unfold link_ok. rewrite (root_dir r Hr), (url_targets_tag_id _ Harr).
+  intros Hae Hr Harr Hpar Hin Hname Hseg Hl Hid. unfold link_ok. rewrite (root_dir r Hr), (url_targets_tag_id _ Harr Hpar).
   rewrite <- Hname. rewrite (resolve_type_url (ns_name r) (ns_name r') _ Hseg). cbn [target_ok].
   apply existsb_exists. exists r'. split; [apply root_is_page, Hin|].
   rewrite (root_dir r' Hseg), list_str_eqb_refl. cbn [andb]. apply str_in_spec.
